@@ -20,7 +20,11 @@ import array  # noqa: E402
 FORMS = {"bytes": bytes, "list": list, "bytearray": bytearray, "tuple": tuple, "memoryview": lambda p: memoryview(bytes(p)),
          "array": lambda p: array.array("B", p),
          # byte VALUES held in wider items: still a sequence of bytes
-         "arrayH": lambda p: array.array("H", p), "arrayq": lambda p: array.array("q", p)}
+         "arrayH": lambda p: array.array("H", p), "arrayq": lambda p: array.array("q", p),
+         # views of part of a larger receive buffer: the message is what the view exposes
+         "mv_slice": lambda p: memoryview(bytes([0xA5, 0x80]) + bytes(p) + bytes([0x7F, 1, 2]))[2:2 + len(p)],
+         "mv_stride": lambda p: memoryview(bytes(x for b in p for x in (b, 0xEE)))[::2],
+         "ba_slice_view": lambda p: memoryview(bytearray(bytes([9]) + bytes(p) + bytes([0x80])))[1:1 + len(p)]}
 
 
 def aborted_call(rng):
@@ -45,7 +49,7 @@ def trace(tid, msg, as_bytes=True, rng=None):
     steps = []
     if tid % 4 == 0:
         # the empty message, in one of its guises
-        empty = [b"", [], (), bytearray(), memoryview(b"")][tid // 4 % 5]
+        empty = [b"", [], (), bytearray(), memoryview(b""), memoryview(b"\x80\x01")[1:1]][tid // 4 % 6]
         steps.append({"in": {"e": "empty"}, "out": {"c": crc_or_code(empty)}})
     for i in range(len(msg)):
         prefix = msg[:i + 1]
